@@ -6,6 +6,7 @@ import (
 	"go/constant"
 	"go/token"
 	"go/types"
+	"golang.org/x/tools/go/packages"
 	"sort"
 	"strings"
 )
@@ -13,7 +14,7 @@ import (
 func init() {
 	register(&propDef{
 		ID:          "C20",
-		Explanation: "Decides, for the live-reload proxy's response rewriter (found structurally: the function that assigns the Body of its *http.Response parameter) and its helpers: R1 ContentLength and the Content-Length header are both computed from Len() of the very buffer installed as the new body, and the encoder's Close() dominates both reads (otherwise a gzip/brotli trailer is not counted); R2 every non-empty arm of the Content-Encoding switch binds a reader and a writer constructor from the same package, the empty encoding binds nothing (identity), and the arm for an unknown encoding leaves the function without touching the response; R3 the skip-marker test and the content-type test precede every mutation of the response and return, and the round tripper sets the marker only on the HX-Request == \"true\" path; R4 the nonce given to the script builder is parsed from the response's Content-Security-Policy header and reaches a nonce attribute; (the policy parser takes the nonce only from a script-src* directive — one directive per test, so that precedence between directives is not decided by their order in the header); R5 exactly one AppendChild on the first body node, outside loops, and every failure path of the inserter returns the original body. R6 the buffer installed as the new body is a fresh local allocation of the rewriter and is never handed to a sync.Pool (the reverse proxy reads it after the rewriter returns). R7 the page is parsed with scripting enabled, as the receiving browser does. R8 a function that answers from a cache makes the hit depend on every parameter its miss path computes from. NOT decided: that parse+render preserves the rest of the document; CSP header grammars.",
+		Explanation: "Decides, for the live-reload proxy's response rewriter (found structurally: the function that assigns the Body of its *http.Response parameter) and its helpers: R1 ContentLength and the Content-Length header are both computed from Len() of the very buffer installed as the new body, and the encoder's Close() dominates both reads (otherwise a gzip/brotli trailer is not counted); R2 every non-empty arm of the Content-Encoding switch binds a reader and a writer constructor from the same package, the empty encoding binds nothing (identity), and the arm for an unknown encoding leaves the function without touching the response; R3 the skip-marker test and the content-type test precede every mutation of the response and return, and the round tripper sets the marker only on the HX-Request == \"true\" path; R4 the nonce given to the script builder is parsed from the response's Content-Security-Policy header and reaches a nonce attribute; (the policy parser takes the nonce only from a script-src* directive — one directive per test, so that precedence between directives is not decided by their order in the header); R5 exactly one AppendChild on the first body node, outside loops, and every failure path of the inserter returns the original body. R6 the buffer installed as the new body is a fresh local allocation of the rewriter and is never handed to a sync.Pool (the reverse proxy reads it after the rewriter returns). R7 the page is parsed with scripting enabled, as the receiving browser does. R8 a function that answers from a cache makes the hit depend on every parameter its miss path computes from. NOT decided: that parse+render preserves the rest of the document; CSP header grammars. R10 every path of the rewriter that has read the response body and returns without an error installs a new body.",
 		Assumptions: []string{"gzip/brotli writers emit their trailer on Close", "x/net/html Render(Parse(doc)) denotes doc (not checked)"},
 		Trusted:     []string{"go/types", "x/tools go/packages, go/cfg"},
 		Run:         runC20,
@@ -510,6 +511,8 @@ func runC20(c *Ctx) {
 		c.check(why == "", "C20.R6", key+"|body-buffer-owned-by-response", c.pos(fd.Pos()), "the buffer installed as r.Body is a fresh local allocation and is never handed to a pool",
 			"the buffer installed as r.Body is shared between responses: "+why+". The reverse proxy streams r.Body to the browser after the rewriter has returned, so a concurrent page load overwrites the bytes while they are being sent (body and Content-Length disagree, wrong or corrupt page)")
 	}
+
+	consumedBodyIsReplaced(c, "C20.R10", p, fd, resp)
 
 	// R2 ------------------------------------------------------------
 	var encSwitch *ast.SwitchStmt
@@ -1559,4 +1562,89 @@ func firstMatchInDocumentOrder(info *types.Info, fd *ast.FuncDecl) bool {
 		return true
 	})
 	return recursive && !stack || stack && popsEnd && !queue
+}
+
+// consumedBodyIsReplaced: C20.R10 — once the rewriter has read the response body (io.ReadAll / io.Copy of r.Body or of a
+// decoder over it) the original body is gone. Every path that then returns without an error must have installed a new
+// body: a "nothing to do, leave the response as it is" exit after the read sends the client the old headers with an
+// empty body. Paths are those of the rewriter with its package-local phases followed into.
+func consumedBodyIsReplaced(c *Ctx, rule string, p *packages.Package, fd *ast.FuncDecl, resp types.Object) {
+	info := p.TypesInfo
+	key := funcKey(p, fd)
+	decls := map[types.Object]*ast.FuncDecl{}
+	for _, f := range allFuncDecls(p) {
+		if f != fd && f.Body != nil {
+			decls[info.Defs[f.Name]] = f
+		}
+	}
+	den := &denum{info: info, pkg: p.Types, inits: map[types.Object]ast.Expr{}, limit: 50000, opaqueLoops: true, decls: decls, inlineVals: true}
+	den.finish(den.run(fd.Body.List, []dstate{{env: map[types.Object]ast.Expr{}}}))
+	if den.undecided != "" {
+		c.undec(rule, key+"|consumed-body-replaced", c.pos(fd.Pos()), "the rewriter contains "+den.undecided)
+		return
+	}
+	isResp := func(e ast.Expr, env map[types.Object]ast.Expr) bool {
+		for i := 0; i < 8; i++ {
+			id, ok := ast.Unparen(e).(*ast.Ident)
+			if !ok {
+				return false
+			}
+			if info.ObjectOf(id) == resp {
+				return true
+			}
+			b, bound := env[info.ObjectOf(id)]
+			if !bound {
+				return false
+			}
+			e = b
+		}
+		return false
+	}
+	nread, bad := 0, ""
+	for _, pth := range den.paths {
+		read, installed := false, false
+		var readPos token.Pos
+		for _, st := range pth.Trace {
+			ast.Inspect(st, func(n ast.Node) bool {
+				switch x := n.(type) {
+				case *ast.CallExpr:
+					if fn := calleeOf(info, x); fn != nil {
+						switch fullName(fn) {
+						case "io.ReadAll", "io/ioutil.ReadAll", "io.Copy", "bytes.(Buffer).ReadFrom":
+							if !read {
+								read, readPos = true, x.Pos()
+							}
+						}
+					}
+				case *ast.AssignStmt:
+					for _, l := range x.Lhs {
+						if se, ok := ast.Unparen(l).(*ast.SelectorExpr); ok && se.Sel.Name == "Body" && isResp(se.X, pth.Env) && read {
+							installed = true
+						}
+					}
+				}
+				return true
+			})
+		}
+		if !read {
+			continue
+		}
+		nread++
+		succeeds := pth.Ret == nil
+		if pth.Ret != nil && len(pth.Ret.Results) > 0 {
+			last := den.deref(pth.Ret.Results[len(pth.Ret.Results)-1], pth.Env)
+			if id, ok := last.(*ast.Ident); ok && id.Name == "nil" {
+				succeeds = true
+			}
+		}
+		if succeeds && !installed {
+			where := "the end of the function"
+			if pth.Ret != nil {
+				where = c.pos(pth.Ret.Pos())
+			}
+			bad = fmt.Sprintf("the path that returns at %s without an error has read the body (%s) but installs no new one", where, c.pos(readPos))
+		}
+	}
+	c.check(bad == "" && nread > 0, rule, key+"|consumed-body-replaced", c.pos(fd.Pos()), fmt.Sprintf("%d path(s) read the body; each that succeeds installs a new one", nread),
+		"the response rewriter: "+bad+" — the client receives the original Content-Length with an empty body (a document without <body>, e.g. a frameset page, hangs or is truncated)")
 }
